@@ -267,8 +267,12 @@ func c09Run(c c09Case) (string, error) {
 	cur, _ := parser.Parse(text)
 	// the resolved journal the handlers consult
 	var res *include.ResolvedJournal
+	primaryID := c09ID(c.Current) // the file the resolved journal's primary was parsed from
 	if ws := srv.Workspace(); ws != nil && ws.GetResolved() != nil {
 		res = ws.GetResolved()
+		if rp := ws.RootJournalPath(); rp != "" {
+			primaryID = c09IDOfPath(rp)
+		}
 	} else {
 		res = srv.GetResolved(u)
 	}
@@ -403,7 +407,7 @@ func c09Run(c c09Case) (string, error) {
 		}
 	}
 	_ = srv.DidClose(ctx, &protocol.DidCloseTextDocumentParams{TextDocument: protocol.TextDocumentIdentifier{URI: u}})
-	return fmt.Sprintf("(mkCase %s %s %s %d %s %s %s %s %s)", gJMap(resFiles), prim, gBool(res != nil), c09ID(c.Current), gJournal(cur), gJMap(scope), gBool(c.HasRoot), gBool(c.Unsaved != ""), gList(reqs)), nil
+	return fmt.Sprintf("(mkCase %s %s %s %d %d %s %s %s %s %s)", gJMap(resFiles), prim, gBool(res != nil), primaryID, c09ID(c.Current), gJournal(cur), gJMap(scope), gBool(c.HasRoot), gBool(c.Unsaved != ""), gList(reqs)), nil
 }
 
 func runC09(o opts) error {
